@@ -48,15 +48,15 @@ ClassOf(k) == CASE k = "KeyboardInterrupt" -> "KeyboardInterrupt" [] IsLibrary(k
                 [] k = "NoSource" -> "ValueError" [] OTHER -> "RuntimeError"
 
 \* ------------------------------------------------------------------ tables: command lines
-\* alpha <a> [--flag]   |   beta [<b>]  with sub-command  beta gamma <c> [--num N]
+\* alpha <a> [--flag]   |   beta [--num N]  with sub-command  beta gamma <c>  (inherits --num)
 Lines == {"alpha_x", "alpha_x_flag", "beta", "beta_gamma_y", "beta_gamma_y_num", "alpha_missing", "nosuch"}
 Pair(n, v) == <<n, v>>
 LineInfo(l) ==
   CASE l = "alpha_x"          -> [ok |-> TRUE, cmd |-> "alpha", args |-> <<Pair("a", "x")>>, opts |-> <<Pair("flag", "False")>>]
     [] l = "alpha_x_flag"     -> [ok |-> TRUE, cmd |-> "alpha", args |-> <<Pair("a", "x")>>, opts |-> <<Pair("flag", "True")>>]
-    [] l = "beta"             -> [ok |-> TRUE, cmd |-> "beta", args |-> <<Pair("b", "None")>>, opts |-> <<>>]
-    [] l = "beta_gamma_y"     -> [ok |-> TRUE, cmd |-> "beta gamma", args |-> <<Pair("b", "None"), Pair("c", "y")>>, opts |-> <<Pair("num", "None")>>]
-    [] l = "beta_gamma_y_num" -> [ok |-> TRUE, cmd |-> "beta gamma", args |-> <<Pair("b", "None"), Pair("c", "y")>>, opts |-> <<Pair("num", "7")>>]
+    [] l = "beta"             -> [ok |-> TRUE, cmd |-> "beta", args |-> <<>>, opts |-> <<Pair("num", "None")>>]
+    [] l = "beta_gamma_y"     -> [ok |-> TRUE, cmd |-> "beta gamma", args |-> <<Pair("c", "y")>>, opts |-> <<Pair("num", "None")>>]
+    [] l = "beta_gamma_y_num" -> [ok |-> TRUE, cmd |-> "beta gamma", args |-> <<Pair("c", "y")>>, opts |-> <<Pair("num", "7")>>]
     [] OTHER                  -> [ok |-> FALSE, cmd |-> "", args |-> <<>>, opts |-> <<>>]    \* required argument missing / unknown command
 LineOK(env) == LineInfo(env.line).ok /\ ~(env.line = "nosuch" /\ env.app = "default")   \* (never combined: the default app has a default command)
 ExpectedCall(env) == [cmd |-> LineInfo(env.line).cmd, args |-> LineInfo(env.line).args, opts |-> LineInfo(env.line).opts]
@@ -111,7 +111,8 @@ Step(st) ==
          ELSE [st EXCEPT !.phase = "preResolved"]
     [] st.phase = "preResolved" ->                                                                     \* Resolve
          IF LineOK(env) THEN [st EXCEPT !.phase = "resolved"]
-         ELSE [st EXCEPT !.phase = "caught", !.exc = [k |-> "Library", cls |-> "ResolutionError", lib |-> TRUE, src |-> "resolve"]]
+         ELSE [st EXCEPT !.phase = "caught", !.exc = [k |-> "Library", cls |-> IF env.line = "nosuch" THEN "CannotResolveCommandException" ELSE "CannotParseArgsException",
+                               lib |-> TRUE, src |-> "resolve"]]
     [] st.phase = "resolved" ->                                                                        \* PreHandle (one listener)
          IF st.li > Len(env.listeners) THEN [st EXCEPT !.phase = "preHandled"]
          ELSE LET ls == env.listeners[st.li] IN
